@@ -322,6 +322,11 @@ def write_overlay(rep, extra=None):
     return path
 
 
+# harnesses that did not build against the current sources in this process: (name, error).  A check that cannot run its tie must
+# not pass quietly on what is left (see `check`): the property is no longer shown to hold for this tree.
+HARNESS_FAILURES = []
+
+
 def build_harness(name, deps=("wire",), extra_overlay=None, race=False):
     ov = write_overlay(overlay_for((name,) + tuple(deps)), extra_overlay)
     out = os.path.join(scratch(), "h_" + name + ("_race" if race else ""))
@@ -331,6 +336,8 @@ def build_harness(name, deps=("wire",), extra_overlay=None, race=False):
     cmd.append("./internal/zz_verif_" + name)
     p = run(cmd, cwd=REPO, env=GOENV, timeout=1500)
     if p.returncode != 0:
+        if not race:      # a missing race-detector runtime is an environment matter; a source-level break also breaks the plain build
+            HARNESS_FAILURES.append((name, p.stderr[-1500:]))
         raise HarnessUnavailable(p.stderr[-3000:])
     return out
 
@@ -344,6 +351,7 @@ def build_grog():
         out = os.path.join(scratch(), "grog")
         p = run(["go", "build", "-o", out, "."], cwd=REPO, env=GOENV, timeout=1500)
         if p.returncode != 0:
+            HARNESS_FAILURES.append(("grog", p.stderr[-1500:]))
             raise HarnessUnavailable("grog does not build: " + p.stderr[-3000:])
         _grog = out
     return _grog
